@@ -63,14 +63,27 @@ def stepC11 (s : DS) (fs : List String) : DS × String :=
   | ["run", mode, db, meas, ret, buf] =>
     match int? ret, int? buf with
     | some ret, some buf =>
-      if mode != "dry" && mode != "http" && mode != "sched" && mode != "nocf" then (s, "bad-op") else
+      -- HTTP body flags (absent = false); `sched` = ExecutePolicy (always a real run)
+      let fl : Option (Bool × Bool) :=
+        if mode == "dry" then some (true, false)
+        else if mode == "http" then some (false, true)
+        else if mode == "nocf" then some (false, false)
+        else match mode.toList with
+          | ['x', ':', d, c] =>
+            if (d == 't' || d == 'f' || d == 'a') && (c == 't' || c == 'f' || c == 'a') then some (d == 't', c == 't') else none
+          | _ => none
+      if mode != "sched" && fl.isNone then (s, "bad-op") else
       let pol : Policy := { db := db.toList, meas := if meas == "*" then none else some meas.toList, ret := ret, buf := buf }
       if !policyValid pol then (s, "rejected") else
-      -- execute without confirm=true (and not a dry run): HTTP 400, nothing happens
-      if mode == "nocf" then (s, "err=400") else
-      let (st, r) := run srcCfg (mode == "dry") s.store pol s.now
-      ({ s with store := st },
-       s!"ok cutoff={r.cutoff / 1000000000} rows={r.rows} files={r.files} meas={joinOr "," (sortStrs (r.meas.map String.ofList))}")
+      let (st, r?) :=
+        match fl with
+        | some (dflag, cflag) => execHttp Arc.Generated.C11.dryGate srcCfg dflag cflag s.store pol s.now
+        | none => ((run srcCfg false s.store pol s.now).1, some (run srcCfg false s.store pol s.now).2)
+      match r? with
+      | none => ({ s with store := st }, "err=400")
+      | some r =>
+        ({ s with store := st },
+         s!"ok cutoff={r.cutoff / 1000000000} rows={r.rows} files={r.files} meas={joinOr "," (sortStrs (r.meas.map String.ofList))}")
     | _, _ => (s, "bad-op")
   | _ => (s, "bad-op")
 
